@@ -1,7 +1,13 @@
 #!/bin/sh
-# usage: tools_apply_seed.sh <patch> <check-id> [tier]   -- applies a seeded change to /repo, runs one check, reverts
+# usage: tools/apply_seed.sh <patch> <check-id> [tier]
+# Runs one check against a scratch worktree of /repo HEAD with the seeded change applied
+# (VT4_REPO points the harness at it); /repo itself is never touched.
 patch="$1"; id="$2"; t="${3:-quick}"
-git -C /repo apply "$patch" || exit 3
-/verif/check "$id" "$t" > /tmp/seedrun_$id.out 2>&1; rc=$?
-git -C /repo checkout -- .
-echo "rc=$rc"; grep -E "VIOLATION|KNOWN|OK|MACHINERY" /tmp/seedrun_$id.out | head -8
+wt=$(mktemp -d /tmp/seedwt.XXXXXX)
+git -C /repo worktree add -q --detach "$wt" HEAD || exit 3
+if ! git -C "$wt" apply "$patch" 2>/dev/null; then
+  if ! (cd "$wt" && patch -p1 -s --fuzz=3 < "$patch"); then echo "patch does not apply"; git -C /repo worktree remove --force "$wt"; exit 3; fi
+fi
+VT4_REPO="$wt" /verif/check "$id" "$t" > /tmp/seedrun_$id.out 2>&1; rc=$?
+git -C /repo worktree remove --force "$wt"
+echo "rc=$rc"; grep -E "VIOLATION|KNOWN|^OK|MACHINERY" /tmp/seedrun_$id.out | cut -c1-160 | head -6
